@@ -1,5 +1,6 @@
 """C05 — event notifications are not lost, not invented."""
 import core, re
+import pC05ports
 
 
 def event_oracle(e):
@@ -74,15 +75,18 @@ def run(ctx):
                                 lambda case, idx, io, mo: "eventseq:" + case[0][0].split(" ")[1] + ":" + case[idx][0].split(" ")[0], label="eventseq")
         else:
             ctx.violation("harness-build", "harness does not build against the current tree", dict(engine="cargo", stderr=err[-3000:]), nfi=True)
+        # the ports above the hand-shake: real Notifier / Listener ports of an event service against the L1 model
+        pC05ports.ports_part(ctx, "C05")
     return core.finish(
         ctx, level="proof",
         rule="steptrace on the real EventImpl hand-shake (cal/event/common.rs: Notifier::notify, Waiter::drain_events through try_wait and blocking_wait) over the real "
              "RelocatableBitSet and RelocatableCountingBitSet with a trace trigger (bounded counter of instrumented atomics): 1..2 notifier threads with 1..2 notifies each, "
              "one listener with 1..2 try/blocking waits, ids from 1, 3 or 9, trigger bound 0/1/2 with and without fail_when_buffer_is_full; PRNG schedules and all schedules "
              "with a bounded number of preemptions; every atomic operation and returned value compared with the L2 model; a blocked listener is unschedulable until the "
-             "trigger counter is positive, a listener blocked for good is reported by the scheduler and must be disabled in the model too. distinct = distinct (program, interleaving)",
+             "trigger counter is positive, a listener blocked for good is reported by the scheduler and must be disabled in the model too. distinct = distinct (program, interleaving). "
+             + pC05ports.RULE,
         extra_assumptions=["in the traces the real trigger back-ends (semaphore, unix datagram socket, socket pair) are represented by the counter `notify adds one signal or reports BufferIsFull, "
                            "wait consumes, empty_buffer discards all`; the six real back-end x event-state combinations are compared with the same model sequentially (component eventseq: notify / try_wait), "
                            "not under concurrency",
                            "sequentially consistent interleavings only (all hand-shake operations are SeqCst in the source; the bit-set operations are Relaxed RMWs on single words)",
-                           "timed_wait is try_wait after the timeout elapsed; time itself is not modelled"])
+                           "timed_wait is try_wait after the timeout elapsed; time itself is not modelled"] + pC05ports.ASSUMPTIONS)
